@@ -311,7 +311,8 @@ theorem C06_chain_independent (orc : Oracle) (w : World) (dflt : Str) (fuel₁ f
   · have := C06_resolve_fuel_monotone_ok orc w dflt [] phys top v v₂ fuel₂ fuel₁ hle h₂
     rw [h₁'] at this; exact Res.ok.inj this
 
-/-- the full statement (NOT proved here): two orders of the registered paths that both succeed
+/-- the full statement (not proved in this file; proved for well-formed worlds, `WorldWF w`, as
+    `C06_order_independent_full_of_wf` in `Theorems/C06Order.lean`): two orders of the registered paths that both succeed
     produce worlds in which every key renders the same in every environment.  (Only successful runs
     are compared: which *error* is reported first does depend on the order.) -/
 def C06_order_independent_full_statement : Prop :=
